@@ -69,7 +69,7 @@ def build_ir(src, defs, std, wd, extra=()):
     """clang -> strip -> opt. returns path of optimized .ll"""
     ll = os.path.join(wd, 'm.ll')
     cmd = [CLANG, '-std=' + std, '-O1', '-fno-inline', '-fno-vectorize', '-fno-slp-vectorize', '-fno-unroll-loops',
-           '-fno-access-control', '-D' + GUARD, '-DVERIF_SYMBOLIC',
+           '-fno-access-control', '-fno-pic', '-fno-PIE', '-fno-jump-tables', '-D' + GUARD, '-DVERIF_SYMBOLIC',
            '-I' + os.path.join(REPO, 'include'), '-I' + HARNESS, '-S', '-emit-llvm', '-Wno-everything',
            src, '-o', ll] + defs_flags(defs) + list(extra)
     r = sh(cmd, timeout=300)
